@@ -34,7 +34,7 @@ func checkC13(R *Run) {
 	P := R.P
 	R.rule("id-unique", "in every non-mock ClientManager.Add, the insertion into the registry map is only reachable on the 'absent' edge of a lookup of the same key in the same map, no write to the connection's ID lies between that lookup and the insertion, and the zero ID is never handed out")
 	R.rule("refuse-pm", "in the private-message handler the message to the target is only delivered on the false edge of target.Flags.IsSet(refuse-PM), the refusal notice only on the true edge, the automatic reply only when the target's auto-reply text is non-empty, and the target is ClientMgr.Get(request's user ID)")
-	R.rule("notify-after-change", "outside the login sequence, every store to a connection's UserName or Icon and every Flags.Set is followed on all paths to the function's return by a user-change notice (NewTransaction/SendAll of TranNotifyChangeUser, possibly inside the loop over ClientMgr.List())")
+	R.rule("notify-after-change", "outside the login sequence, every store to a connection's UserName or Icon and every Flags.Set is followed on all paths to the function's return by a user-change notice addressed to every registered client including the changed one (SendAll of TranNotifyChangeUser, or NewTransaction inside the loop over ClientMgr.List(); NotifyOthers, which skips the connection itself, does not count)")
 	R.rule("notify-fields", "every user-change notice carries fields 103 (ID), 102 (name), 104 (icon) and 112 (flags), each built from the ID, UserName, Icon and Flags of one and the same connection")
 	R.rule("userlist-fields", "the user list reply builds each entry from the ID, Icon, Flags and UserName of the same registry element")
 
@@ -268,7 +268,7 @@ func checkC13(R *Run) {
 			if !ok {
 				return false
 			}
-			if _, ok := notifyChangeUserFields(ci); ok {
+			if _, ok := notifyChangeUserFields(ci); ok && (!feedsNotifyOthers(ci) || loginTailFns[fname(fn)]) {
 				return true
 			}
 			// the loop over the registry that contains a notice
@@ -279,13 +279,8 @@ func checkC13(R *Run) {
 					}
 				}
 			}
-			if calleeName(ci.Common()) == "(*hotline.ClientConn).NotifyOthers" {
-				if nt := callValue(ci.Common().Args[1]); nt != nil {
-					if _, ok := notifyChangeUserFields(nt); ok {
-						return true
-					}
-				}
-			}
+			// NotifyOthers is deliberately not accepted here: it leaves out the changed connection itself, whose own
+			// client also shows the roster (set-away by the keepalive and clear-away must reach the same audience)
 			// a helper that produces the notice on every one of its paths
 			for _, cal := range P.callees(ci) {
 				if isNotifierFn(P, cal, 0) {
@@ -558,6 +553,25 @@ func reachesWithout(b *ssa.BasicBlock, idx int, to, avoid ssa.Instruction) bool 
 }
 
 var notifierMemo = map[*ssa.Function]bool{}
+
+// in the tail of the login sequence the connection announces itself to the others only (its own client has just
+// sent these values and receives the roster separately)
+var loginTailFns = map[string]bool{"mobius.HandleTranAgreed": true}
+
+// feedsNotifyOthers: the transaction built by this call is handed to NotifyOthers (which leaves out the connection
+// itself) rather than sent to everybody.
+func feedsNotifyOthers(ci ssa.CallInstruction) bool {
+	v, ok := ci.(ssa.Value)
+	if !ok || v.Referrers() == nil {
+		return false
+	}
+	for _, r := range *v.Referrers() {
+		if c, ok := r.(ssa.CallInstruction); ok && calleeName(c.Common()) == "(*hotline.ClientConn).NotifyOthers" {
+			return true
+		}
+	}
+	return false
+}
 
 // isNotifierFn: every path from the function's entry to a return constructs / broadcasts a user-change notice.
 func isNotifierFn(P *Prog, fn *ssa.Function, depth int) bool {
